@@ -59,7 +59,12 @@ def gen_plan(rng, tier):
     if rng.random() < 0.4:
         flip = {'reply': rng.randrange(n), 'frac': rng.random(), 'bit': rng.randrange(8),
                 'where': rng.choice(['any', 'any', 'head', 'tail'])}
+    out_big = None
+    if flip is None and rng.random() < 0.3:
+        # outgoing direction: other threads send requests of several segments each while the main thread sends its own
+        out_big = [rng.choice([131071, 131072, 140000, 270000, 400000]) for _ in range(rng.choice([1, 2, 3]))]
     return {
+        'out_big': out_big, 'line_p': rng.choice([0.05, 0.2, 0.5]) if out_big else 0,
         'compression': rng.random() < 0.5,
         'in_buffer_size': rng.choice([1, 5, 6, 7, 8, 9, 64, 4096, 4096, 65536]),
         'chunk_mode': rng.choice(['mixed', 'mixed', 'bytes1', 'random', 'boundary', 'tiny', 'whole']),
@@ -69,6 +74,11 @@ def gen_plan(rng, tier):
         'flip': flip,
         'strategy': gen_strategy(rng),
     }
+
+
+def big_query(j, size):
+    head = 'SELECT /*big=%d*/ ' % j
+    return head + ''.join(chr(97 + (i * 7 + j) % 26) for i in range(size - len(head)))
 
 
 def plan_ok(plan):
@@ -97,10 +107,15 @@ class C06Peer(HandshakePeer):
         self.batch = []
         self.replies = 0
         self.flipped = None
+        self.big_seen = []
 
     def on_query(self, pc, fr, req):
         sim = self.sim
         q = (req or {}).get('query', '')
+        if '/*big=' in q:
+            j = int(q.split('big=')[1].split('*')[0])
+            self.big_seen.append((j, len(q), q == big_query(j, self.plan['out_big'][j])))
+            return
         try:
             k = int(q.split('rid=')[1].split('*')[0])
         except Exception:
@@ -238,12 +253,34 @@ def run_plan(plan, seed, choices=None):
                 errors.append((sim.nlog, k, e))
         state['sent_all'] = True
 
+    def big_sender(j):
+        while state['conn'] is None and not V.items:
+            cconn.time.sleep(0.001)
+        conn = state['conn']
+        if conn is None:
+            return
+        with conn.lock:
+            stream = conn.get_request_id()
+            conn.in_flight += 1
+        try:
+            conn.send_msg(proto.QueryMessage(big_query(j, plan['out_big'][j]), 1), stream, lambda r: None)
+            sim.probe('multi_segment_request_sent')
+        except Exception as e:
+            errors.append((sim.nlog, 1000 + j, e))
+        big_done.append(j)
+
+    big_done = []
+    if plan.get('out_big'):
+        sim.enable_line_preemption([cconn.Connection.send_msg, cconn.SegmentCodec.encode, w.conn_class.push], p=plan.get('line_p', 0.2),
+                                   points=4, est_lines=400)
+        for j in range(len(plan['out_big'])):
+            w.spawn(big_sender, 'big%d' % j, j)
     w.spawn(main, 'main')
     n = len(plan['requests'])
 
     def finished():
         c = state['conn']
-        return bool(V.items) or (state['sent_all'] and (len(delivered) + len(errors) >= n))
+        return bool(V.items) or (state['sent_all'] and (len(delivered) + len(errors) >= n) and len(big_done) == len(plan.get('out_big') or []))
 
     status = sim.run(until=finished)
     # let in-flight bytes drain so that "once all bytes are delivered" holds
@@ -251,6 +288,11 @@ def run_plan(plan, seed, choices=None):
         status2 = sim.run(until=lambda: not any(e[3].startswith('s2c') or e[3].startswith('reply') or e[3] == 'flush'
                                                 for e in sim.events) and
                           all(t.state != 'runnable' for t in sim.threads))
+        if plan.get('out_big'):
+            # the large requests leave through the loop thread's write queue: wait until the peer has them all or nothing moves any more
+            end = sim.now + 5.0
+            sim.run(until=lambda: len(peer.big_seen) >= len(plan['out_big']) or sim.now >= end or
+                    (not sim.events and all(t.state != 'runnable' for t in sim.threads)))
     conn = state['conn']
     flip = peer.flipped
     sent = peer.stream_log
@@ -289,6 +331,12 @@ def run_plan(plan, seed, choices=None):
         V.check('C06/outgoing')
         if peer.decode_errors:
             V.add('C06/outgoing', 'peer-decode-error', 'independent decoder rejected driver output: %r' % (peer.decode_errors[0],))
+        elif plan.get('out_big') and status == 'done':
+            got = sorted(peer.big_seen)
+            want = sorted((j, size, True) for j, size in enumerate(plan['out_big']))
+            if got != want:
+                V.add('C06/outgoing', 'multi-segment-request-garbled', 'requests of several segments sent concurrently: peer reassembled %r, sent %r'
+                      % ([(a, b, 'intact' if c else 'ALTERED') for a, b, c in got], [(a, b) for a, b, c in want]))
     else:
         V.check('C06/detected')
         if conn is not None:
